@@ -30,10 +30,10 @@ vars == <<s, i, st, kills, bad>>
 Fail(r, what) == [id |-> r.id, kind |-> r.kind, what |-> what]
 Upd(f, k, v) == [x \in (DOMAIN f) \cup {k} |-> IF x = k THEN v ELSE f[x]]
 
-Init == s = 1 /\ i = 0 /\ st = <<>> /\ kills = 0 /\ bad = <<>>
+Init == s = 1 /\ i = 0 /\ st = <<>> /\ kills = {} /\ bad = <<>>
 
 Begin == /\ s <= Len(Recs) /\ i = 0
-         /\ i' = 1 /\ st' = <<>> /\ kills' = 0 /\ UNCHANGED <<s, bad>>
+         /\ i' = 1 /\ st' = <<>> /\ kills' = {} /\ UNCHANGED <<s, bad>>
 
 Step == /\ s <= Len(Recs) /\ i >= 1 /\ i <= Len(Recs[s].events)
         /\ LET ev == Recs[s].events[i] e == ev.ev IN
@@ -41,7 +41,9 @@ Step == /\ s <= Len(Recs) /\ i >= 1 /\ i <= Len(Recs[s].events)
                       [] e = "EvalSubmit" /\ ev.runner -> Upd(st, ev.t, "WAITING")
                       [] e = "BmDiscardClaim" -> Upd(st, ev.t, "RUNNING")
                       [] OTHER -> st
-           /\ kills' = IF e = "HKill" THEN kills + 1 ELSE kills
+           \* machines lost: killed by the harness, or found lost by their monitor (under load a machine of the test
+           \* system can also die by itself, of a lapsed keepalive)
+           /\ kills' = IF e \in {"HKill", "SmLost"} THEN kills \cup {ev.m} ELSE kills
         /\ i' = i + 1 /\ UNCHANGED <<s, bad>>
 
 End == /\ s <= Len(Recs) /\ i = Len(Recs[s].events) + 1
@@ -52,13 +54,13 @@ End == /\ s <= Len(Recs) /\ i = Len(Recs[s].events) + 1
                 ELSE (IF r.run1 = "timeout" \/ r.reuse = "timeout" \/ r.reuse = "scan timeout" THEN <<Fail(r, "NoRunBlocksForever")>> ELSE <<>>)
                   \o (IF r.reuse # "skipped" /\ stuck # {} THEN <<Fail(r, "NoTaskLeftRunning")>> ELSE <<>>)
                   \o (IF r.reuse = "ok" /\ (r.rows # r.wantrows \/ r.sum # r.wantsum) THEN <<Fail(r, "RowsOfFirstEvaluation")>> ELSE <<>>)
-                  \o (IF kills = 0 /\ r.kind # "fatal" /\ (r.run1 # "ok" \/ r.reuse # "ok") THEN <<Fail(r, "SucceedsWithoutLoss")>> ELSE <<>>)
+                  \o (IF kills = {} /\ r.kind # "fatal" /\ (r.run1 # "ok" \/ r.reuse # "ok") THEN <<Fail(r, "SucceedsWithoutLoss")>> ELSE <<>>)
                   \* user code that fails persistently: the run reports an error (it neither succeeds nor hangs) and the
                   \* session remains usable for a healthy program
                   \o (IF r.kind = "fatal" /\ (r.run1 = "ok" \/ r.run1 = "timeout" \/ r.reuse # "ok") THEN <<Fail(r, "FatalErrorSurfacesSessionUsable")>> ELSE <<>>)
                   \o (IF r.discard /\ r.run1 = "ok" /\ ~r.discardret THEN <<Fail(r, "DiscardReturns")>> ELSE <<>>)
                   \* one machine is lost, replacements can be started, nothing else fails: the lost outputs are recomputed
-                  \o (IF kills = 1 /\ (r.run1 # "ok" \/ r.reuse # "ok") THEN <<Fail(r, "CompletesWhenLossesStop")>> ELSE <<>>)
+                  \o (IF Cardinality(kills) = 1 /\ (r.run1 # "ok" \/ r.reuse # "ok") THEN <<Fail(r, "CompletesWhenLossesStop")>> ELSE <<>>)
           IN bad' = bad \o fails
        /\ s' = s + 1 /\ i' = 0 /\ UNCHANGED <<st, kills>>
 
